@@ -55,6 +55,9 @@ def judge(tree, res):
         for l in lines:
             if not l.endswith("\n") or l.count("\n") != 1:
                 return "format(%s) element is not exactly one newline-terminated line: %r" % (key, l)
+        for msg in res.get("error_messages", []):
+            if msg not in "".join(lines):
+                return "format(%s) does not mention %r, which is part of the recorded error's chain / group" % (key, msg)
         if not a:
             text = [l[:-1] for l in lines]
             try:
